@@ -175,3 +175,54 @@ def accepted_file_digests(res, cfg):
             acc.setdefault(d['dig'], d['idx'])
         k += 1
     return acc
+
+
+def max_retests(rec):
+    """Largest number of completed checks of one candidate text between two
+    consecutive adoptions (output writes): (count, digest).  A strategy that
+    keeps testing without adopting anything tests the same few candidates
+    again and again."""
+    bounds = sorted(w.get('seq0', 0) for w in rec.writes)
+    import bisect
+    cnt = collections.Counter()
+    for c in rec.checks:
+        if c.get('verdict') is None and c.get('seq1') is None:
+            continue
+        epoch = bisect.bisect_right(bounds, c['seq0'])
+        cnt[(epoch, c['dig'])] += 1
+    if not cnt:
+        return 0, None
+    (ep, dig), n = cnt.most_common(1)[0]
+    return n, dig
+
+
+def retest_bucket(n):
+    for b in (5, 10, 20, 40, 80, 160):
+        if n <= b:
+            return f'<={b}'
+    return '>160'
+
+
+# twice the number of passes is about 20; measured maximum on the unchanged
+# tree: 5
+IDLE_ROUNDS_BOUND = 40
+
+
+def max_idle_rounds(rec):
+    """Longest sequence of consecutive hierarchical rounds (constructions of
+    a Producer) that were all generated from the same input, i.e. without an
+    adoption in between.  A pass makes at most two such rounds (the sweep
+    that finds nothing, or the "Starting over" sweep), so a run makes at most
+    2 x (number of passes)."""
+    best = cur = 0
+    last = None
+    for r in rec.rounds:
+        if r['kind'] == 'TaskGenerator':
+            continue
+        if r['dig'] == last:
+            cur += 1
+        else:
+            cur = 1
+            last = r['dig']
+        best = max(best, cur)
+    return best
